@@ -4,12 +4,16 @@
   rename-locals   every local variable (not parameter) of every function is renamed  name -> name_r (closures followed)
   extract-temps   in every simple statement, call-valued call arguments are hoisted into fresh temporaries
   invert-if       `if c: A else: B` (no elif) becomes `if not c: B else: A`
+  drop-else       `if c: ...; return x  else: B` becomes `if c: ...; return x` followed by B (also raise / continue / break)
+  insert-noop     a fresh assignment `_noop_k = None` is inserted at the start and at the end of every statement block (as an
+                  added log line would be); ends only where the block does not finish with return/raise/break/continue
+  all             every transformation above, one after the other
   flip-compare    `a < b` becomes `b > a` (single ordering comparisons whose operands have no side effects)
 The transformations were validated once by running the repository's own fast tests on a transformed copy (DESIGN.md 8.3).
 """
 import ast
 
-MODES = ('reformat', 'rename-locals', 'extract-temps', 'invert-if', 'flip-compare')
+MODES = ('reformat', 'rename-locals', 'extract-temps', 'invert-if', 'flip-compare', 'drop-else', 'insert-noop', 'all')
 
 
 class RenameLocals(ast.NodeTransformer):
@@ -177,7 +181,65 @@ class FlipCompare(ast.NodeTransformer):
         return node
 
 
+class DropElse(ast.NodeTransformer):
+    def __init__(self):
+        self.n = 0
+
+    def _block(self, body):
+        out = []
+        for st in body:
+            if isinstance(st, ast.If) and st.orelse and st.body and isinstance(st.body[-1], (ast.Return, ast.Raise, ast.Continue, ast.Break)):
+                tail = st.orelse
+                st.orelse = []
+                out.append(st)
+                out.extend(self._block(tail))
+                self.n += 1
+            else:
+                out.append(st)
+        return out
+
+    def generic_visit(self, node):
+        super().generic_visit(node)
+        for fld in ('body', 'orelse', 'finalbody'):
+            b = getattr(node, fld, None)
+            if isinstance(b, list) and b and isinstance(b[0], ast.stmt):
+                setattr(node, fld, self._block(b))
+        return node
+
+
+class InsertNoop(ast.NodeTransformer):
+    def __init__(self):
+        self.k = 0
+
+    def _mk(self):
+        self.k += 1
+        return ast.Assign(targets=[ast.Name(id='_noop_%d' % self.k, ctx=ast.Store())], value=ast.Constant(value=None), lineno=1, col_offset=0)
+
+    def generic_visit(self, node):
+        super().generic_visit(node)
+        if isinstance(node, (ast.Module, ast.ClassDef)):
+            return node
+        for fld in ('body', 'orelse', 'finalbody'):
+            b = getattr(node, fld, None)
+            if isinstance(b, list) and b and isinstance(b[0], ast.stmt):
+                if fld == 'orelse' and len(b) == 1 and isinstance(b[0], ast.If) and isinstance(node, ast.If):
+                    continue        # keep elif chains as they are
+                start = 0
+                if fld == 'body' and isinstance(node, (ast.FunctionDef, ast.AsyncFunctionDef)) and isinstance(b[0], ast.Expr) \
+                        and isinstance(b[0].value, ast.Constant) and isinstance(b[0].value.value, str):
+                    start = 1       # after the docstring
+                nb = b[:start] + [self._mk()] + b[start:]
+                if not isinstance(nb[-1], (ast.Return, ast.Raise, ast.Break, ast.Continue)):
+                    nb.append(self._mk())
+                setattr(node, fld, nb)
+        return node
+
+
 def transform(text, mode, func_filter):
+    if mode == 'all':
+        for m in ('rename-locals', 'extract-temps', 'invert-if', 'flip-compare', 'drop-else', 'insert-noop'):
+            text = transform(text, m, func_filter)
+        return text
     tree = ast.parse(text)
     if mode == 'reformat':
         pass
@@ -192,6 +254,12 @@ def transform(text, mode, func_filter):
         tree = t.visit(tree)
     elif mode == 'flip-compare':
         t = FlipCompare()
+        tree = t.visit(tree)
+    elif mode == 'drop-else':
+        t = DropElse()
+        tree = t.visit(tree)
+    elif mode == 'insert-noop':
+        t = InsertNoop()
         tree = t.visit(tree)
     else:
         raise SystemExit('unknown mode ' + mode)
